@@ -10,6 +10,7 @@ import (
 func init() {
 	vpHarnesses["vpH_C20_mux"] = vpH_C20_mux
 	vpHarnesses["vpH_C20_kind"] = vpH_C20_kind
+	vpHarnesses["vpH_C20_kind_roundtrip"] = vpH_C20_kind_roundtrip
 }
 
 type vpRespWriter struct {
@@ -137,28 +138,41 @@ func vpH_C20_mux() {
 // pair otherwise; decoding what was encoded gives the same (From, To). The
 // JSON library is the environment: Marshal records the Go value, the decoder
 // returns the corresponding generic tree with json.Number leaves.
-func vpH_C20_kind() {
+// vpH_C20_kind_roundtrip (differential): the engine only picks the witnesses - one per
+// value region, among them odd bounds beyond 2^53 (not representable as float64) and
+// negative ones -; the native run encodes and decodes them with the real methods, whatever
+// they are built from, and demands valid JSON and the same (From, To) back.
+func vpH_C20_kind_roundtrip() {
 	from, to := vpInt("from"), vpInt("to")
-	// value regions, so that the witnesses run natively include bounds beyond 2^53 and negative ones
-	switch vpChoice("region", 4) {
+	switch vpChoice("region", 5) {
 	case 1:
-		vpAssume(from > 1<<53 && to > 1<<53)
+		vpAssume(from > 1<<53 && from%2 == 1 && to > from && to%2 == 1)
 	case 2:
-		vpAssume(from > 1<<53 && to == from)
+		vpAssume(from > 1<<53 && from%2 == 1 && to == from)
 	case 3:
-		vpAssume(from < 0)
+		vpAssume(from < 0 && to >= 0)
+	case 4:
+		vpAssume(from >= 0 && from < 65536 && to == from)
 	}
-	if !vpSymbolic() {
-		// native: the real encoder and decoder on the witness (whatever they are built from)
-		k := Nip11Kind{From: from, To: to}
-		b, err := k.MarshalJSON()
-		vpAssert(err == nil && json.Valid(b), "C20.kind-encodes")
-		var back Nip11Kind
-		vpAssert(back.UnmarshalJSON(b) == nil, "C20.kind-decodes")
-		vpAssert(back.From == from && back.To == to, "C20.kind-round-trip")
+	if vpSymbolic() {
 		vpReach("end")
 		return
 	}
+	k := Nip11Kind{From: from, To: to}
+	b, err := k.MarshalJSON()
+	vpAssert(err == nil && json.Valid(b), "C20.kind-encodes")
+	var back Nip11Kind
+	vpAssert(back.UnmarshalJSON(b) == nil, "C20.kind-decodes")
+	vpAssert(back.From == from && back.To == to, "C20.kind-round-trip")
+	vpReach("end")
+}
+
+func vpH_C20_kind() {
+	if !vpSymbolic() {
+		vpReach("end")
+		return
+	}
+	from, to := vpInt("from"), vpInt("to")
 	var encoded any
 	decodes := 0
 	nums := map[json.Number]int64{}
@@ -209,7 +223,9 @@ func vpH_C20_kind() {
 	case []int:
 		vpAssert(len(x) == 2 && x[0] == from && x[1] == to, "C20.kind-pair-carries-both")
 	default:
-		vpAssert(false, "C20.kind-encoding-shape")
+		// neither an int nor a []int was handed to json.Marshal (an array, another integer type?):
+		// the environment of this harness does not model it; the native round trip judges
+		vpUnsupported("Nip11Kind.MarshalJSON hands json.Marshal a value that is neither int nor []int: outside the JSON environment of this harness")
 	}
 	var back Nip11Kind
 	uerr := back.UnmarshalJSON(b)
